@@ -85,12 +85,14 @@ func (prom *Prometheus) Metadata(ctx context.Context, metric string) (*MetadataR
 	defer prom.locker.unlock(key)
 
 	resultChan := make(chan queryResult)
+	verifTrace("enq", key, resultChan)
 	prom.queries <- queryRequest{
 		query:  metadataQuery{prom: prom, ctx: ctx, metric: metric, timestamp: time.Now()},
 		result: resultChan,
 	}
 
 	result := <-resultChan
+	verifTrace("got", key, resultChan)
 	if result.err != nil {
 		return nil, QueryError{err: result.err, msg: decodeError(result.err)}
 	}
